@@ -36,6 +36,9 @@ func runC02(p *core.Program, r *core.Report) {
 	// R8: a generator's error is an error of the run unless it IS one of the two sentinels: both dispatchers return nil
 	// for ErrSkip / ErrIgnore and the error itself for everything else, decided on the error at hand (C07.R5)
 	chainRules(p, r, "R8", "C07", []string{"C07.R5"}, "the dispatchers treat only the sentinels as success and return every other generator error")
+	// R9: "any error returned by ... a deferred callback makes Execute return an error": every callback handed to Defer is
+	// kept and run (C06.R5: Defer appends what it is given, the drain loop runs every entry)
+	chainRules(p, r, "R9", "C06", []string{"C06.R5"}, "every deferred callback is kept and run")
 	c02A5(p, r, pl)
 }
 
